@@ -1620,6 +1620,70 @@ class Normaliser:
                             else:
                                 setattr(n, f, new)
 
+    def inline_deferred_scatter(self, node):
+        """I, V = [], [] ; loop: .. I.append(i); V.append(v) .. ; E = np.zeros(N); np.add.at(E, I, V)
+        is the accumulation `E[i] += v` done inside the loop (numpy.add.at sums repeated positions, in order): read that way when the two
+        lists are used for nothing else."""
+        body = node.body
+        for k, st in enumerate(body):
+            if not (isinstance(st, ast.Expr) and isinstance(st.value, ast.Call) and U(st.value.func) in ('np.add.at', 'numpy.add.at')
+                    and len(st.value.args) == 3 and all(isinstance(a, ast.Name) for a in st.value.args)):
+                continue
+            E, I, V = [a.id for a in st.value.args]
+            zeros = [(j, s2) for j, s2 in enumerate(body[:k]) if isinstance(s2, ast.Assign) and len(s2.targets) == 1 and U(s2.targets[0]) == E]
+            if len(zeros) != 1 or not (isinstance(zeros[0][1].value, ast.Call) and U(zeros[0][1].value.func) in ('np.zeros', 'numpy.zeros')):
+                continue
+            jz, zst = zeros[0]
+            loops = [(j, s2) for j, s2 in enumerate(body[:k]) if isinstance(s2, (ast.For, ast.While))
+                     and any(isinstance(c, ast.Call) and isinstance(c.func, ast.Attribute) and c.func.attr == 'append' and U(c.func.value) in (I, V)
+                             for c in ast.walk(s2))]
+            if len(loops) != 1:
+                continue
+            jl, loop = loops[0]
+            if jz < jl and any(isinstance(x, ast.Name) and x.id == E for s2 in body[jz + 1:k] for x in ast.walk(s2)):
+                continue
+            # the two lists: initialised empty before the loop, appended once each in one block, read nowhere else
+            uses = [x for s2 in body for x in ast.walk(s2) if isinstance(x, ast.Name) and x.id in (I, V)]
+            site = None
+
+            def find(block):
+                nonlocal site
+                for idx in range(len(block) - 1):
+                    a, b = block[idx], block[idx + 1]
+                    def app(s_, nm):
+                        return isinstance(s_, ast.Expr) and isinstance(s_.value, ast.Call) and isinstance(s_.value.func, ast.Attribute) \
+                            and s_.value.func.attr == 'append' and U(s_.value.func.value) == nm and len(s_.value.args) == 1
+                    if app(a, I) and app(b, V):
+                        site = (block, idx, a.value.args[0], b.value.args[0])
+                    elif app(a, V) and app(b, I):
+                        site = (block, idx, b.value.args[0], a.value.args[0])
+                for s_ in block:
+                    for f in ('body', 'orelse'):
+                        sub = getattr(s_, f, None)
+                        if isinstance(sub, list) and sub and isinstance(sub[0], ast.stmt):
+                            find(sub)
+            find(loop.body)
+            if site is None:
+                continue
+            inits = [s2 for s2 in body[:jl] if isinstance(s2, ast.Assign) and any(nm in target_names(t) for t in s2.targets for nm in (I, V))]
+            n_init_uses = sum(1 for s2 in inits for x in ast.walk(s2) if isinstance(x, ast.Name) and x.id in (I, V))
+            if len(uses) != n_init_uses + 2 + 2:          # inits + two appends + the two arguments of add.at
+                continue
+            ok_inits = all(isinstance(s2.value, (ast.List, ast.Tuple)) for s2 in inits) and \
+                all(not (v_.elts if isinstance(v_, ast.List) else True) for s2 in inits
+                    for v_ in ([s2.value] if isinstance(s2.value, ast.List) else s2.value.elts))
+            if not inits or not ok_inits:
+                continue
+            blk, idx, i_expr, v_expr = site
+            acc = ast.copy_location(ast.AugAssign(target=ast.Subscript(value=ast.Name(id=E, ctx=ast.Load()), slice=i_expr, ctx=ast.Store()),
+                                                  op=ast.Add(), value=v_expr), blk[idx])
+            blk[idx:idx + 2] = [acc]
+            new_body = [s2 for s2 in body if s2 is not st and s2 not in inits and s2 is not zst]
+            new_body.insert(new_body.index(loop), zst)
+            node.body = new_body
+            ast.fix_missing_locations(node)
+            return
+
     def fuse_pipelines(self, node):
         """A chain of list comprehensions over one source - `A = [e1 for t1 in S]; B = [e2 for t2 in A if c]; X = np.array([e3 for t3 in B])`
         - is read as the single loop it describes: `for t1 in S: t2 = e1; if c: t3 = e2; X = np.append(X, e3)`.  Applied to runs of
@@ -1733,6 +1797,7 @@ class Normaliser:
                 ch_._parent = n_
         self.one_shot_iterators(node)
         self.fuse_pipelines(node)
+        self.inline_deferred_scatter(node)
         self.dememoise(node)
         node.body = self.block(node.body, {}, (self.fi.qualname,))
         self.dememoise(node)          # memo tables that came in with inlined helpers
